@@ -782,6 +782,18 @@ func (c *Compiler) validateTypedefsWalk(n parse.Node) {
 	}
 }
 
+// lookupPrefixedType finds the typedef a prefixed type name refers to.  With
+// the prefix of the module the type statement is written in, the typedefs in
+// scope count, as for a name without prefix.
+func (c *Compiler) lookupPrefixedType(typ, refMod parse.Node, name string) (parse.Node, bool) {
+	if c.owningModule(typ.Root()) == c.owningModule(refMod) {
+		if t, ok := typ.LookupType(name); ok && t != nil {
+			return t, true
+		}
+	}
+	return refMod.LookupType(name)
+}
+
 // checkTypedefCycle follows a type statement (and the member types of a
 // union) through the typedefs it names.  chain holds the typedefs we are
 // currently inside: reaching one of them again is a cycle, which would
@@ -797,7 +809,7 @@ func (c *Compiler) checkTypedefCycle(typ parse.Node, chain map[parse.Node]bool) 
 		refMod, err := typ.GetModuleByPrefix(
 			tname.Space, c.modules, c.skipUnknown)
 		if err == nil && refMod != nil {
-			refType, ok = refMod.LookupType(tname.Local)
+			refType, ok = c.lookupPrefixedType(typ, refMod, tname.Local)
 		}
 	} else {
 		refType, ok = typ.LookupType(tname.Local)
@@ -2516,7 +2528,7 @@ func (c *Compiler) BuildBaseType(
 			c.error(typ, err)
 		}
 		tname.Space = refMod.Name()
-		refType, ok = refMod.LookupType(tname.Local)
+		refType, ok = c.lookupPrefixedType(typ, refMod, tname.Local)
 		typeName = tname.Space + ":" + tname.Local
 	} else {
 		typeName = tname.Local
